@@ -51,7 +51,8 @@ CONST = """CONSTANTS NF <- TabNF
  NObj = 2
  FullBounds = %(full)s
 """
-MC_CFG = "SPECIFICATION Spec\n" + CONST + """ OperandPairs <- FirstPair
+ENUM_CONST = " Triples = %(triples)s\n WithBounds = %(bounds)s\n"
+MC_CFG = "SPECIFICATION Spec\n" + CONST + ENUM_CONST + """ OperandPairs <- FirstPair
 VIEW ViewObjs
 INVARIANT LawOrder
 INVARIANT LawBounds
@@ -61,7 +62,7 @@ INVARIANT LawTables
 %(cross)sPROPERTY QueryPure
 PROPERTY RetLaws
 """
-ENUM_CFG = "INIT EnumInit\nNEXT EnumNext\n" + CONST + " Triples = %(triples)s\n WithBounds = %(bounds)s\n"
+ENUM_CFG = "INIT Init\nNEXT EnumNext\n" + CONST + ENUM_CONST
 TRACE_CFG = "SPECIFICATION TraceSpec\n" + CONST + " HasRows = %(triples)s\n NBlk = %(nblk)d\nINVARIANT Verdict\n"
 NBLK = 64
 
@@ -235,7 +236,7 @@ def describe_kind(U, kinds, kid):
     return {"version": (None if dv == 0 else dv), "features": [U[i] for i in range(len(U)) if m >> i & 1]}
 
 
-def check_universe(ctx, name, U, full, triples, bounds, only=None, coverage=False):
+def check_universe(ctx, name, U, full, triples, bounds, only=None, coverage=False, corrupt=None):
     """T1 + T2 + T3 for one feature universe.  `only` = list of (a, b, al) restricts the replay (--replay)."""
     V = versioning()
     d = ctx.sub(name)
@@ -246,12 +247,18 @@ def check_universe(ctx, name, U, full, triples, bounds, only=None, coverage=Fals
     tlc.write_json(tpath, tab)
     cfgd = {"full": "TRUE" if full else "FALSE", "cross": "INVARIANT LawCross\n" if full else "",
             "triples": "TRUE" if triples else "FALSE", "bounds": "TRUE" if bounds else "FALSE", "nblk": NBLK}
-    # ---- G1: TLC enumerates kinds, pairs, scripts -------------------------------------
+    # ---- G1 + T1 in one TLC run: MCProblemKindLattice extends ProblemKindLatticeEnum ---------
+    # G1: TLC enumerates kinds, pairs, scripts.  T1: lattice laws of the specification over the real tables.
     kp, pp, sp = (os.path.join(d, f) for f in ("kinds.ndjson", "pairs.ndjson", "scripts.ndjson"))
-    res = tlc.run_tlc("ProblemKindLatticeEnum", ENUM_CFG % cfgd, os.path.join(d, "enum"),
-                      env={"TABLES": tpath, "KINDS": kp, "PAIRS": pp, "SCRIPTS": sp}, workers=1, timeout=3000)
-    if res.error or res.violated:
-        raise MachineryError("ProblemKindLatticeEnum failed: %s %s" % (res.violated, res.error))
+    env = {"TABLES": tpath, "KINDS": kp, "PAIRS": pp, "SCRIPTS": sp}
+    if only is not None:
+        res = tlc.run_tlc("ProblemKindLatticeEnum", ENUM_CFG % cfgd, os.path.join(d, "enum"), env=env, workers=1, timeout=3000)
+        if res.error or res.violated:
+            raise MachineryError("ProblemKindLatticeEnum failed: %s %s" % (res.violated, res.error))
+    else:
+        res = tlc.run_tlc("MCProblemKindLattice", MC_CFG % cfgd, os.path.join(d, "t1"), env=env, timeout=3000, coverage=coverage)
+        if res.error:
+            raise MachineryError(res.error)
     krows = tlc.read_ndjson(kp)
     kinds = {r["id"]: (r["dv"], r["m"]) for r in krows}
     kver = {r["id"]: r["v"] for r in krows}
@@ -260,13 +267,7 @@ def check_universe(ctx, name, U, full, triples, bounds, only=None, coverage=Fals
     pairs = tlc.read_ndjson(pp)
     if len(pairs) != nk * nk + nk:
         raise MachineryError("enumeration emitted %d pairs for %d kinds" % (len(pairs), nk))
-    ctx.add_tlc("enum %s" % name, res)
-    # ---- T1: lattice laws of the specification over the real tables -------------------
     if only is None:
-        res = tlc.run_tlc("MCProblemKindLattice", MC_CFG % cfgd, os.path.join(d, "t1"), env={"TABLES": tpath},
-                          timeout=3000, coverage=coverage)
-        if res.error:
-            raise MachineryError(res.error)
         ctx.add_tlc("T1 %s (%s bounds)" % (name, "full" if full else "representative"), res)
         if res.violated:
             tr = [s["vars"] for s in res.trace]
@@ -317,6 +318,8 @@ def check_universe(ctx, name, U, full, triples, bounds, only=None, coverage=Fals
         ctx.cov["evaluations"] += len(st) + (2 * len(groups[kver[ia]]) if p["rows"] else 0)
     if not cases:
         raise MachineryError("no case was replayed")
+    if corrupt is not None:  # --selftest: falsify recorded fields, the judge must object
+        corrupt(cases, rec)
     cpath, spath, epath, mpath, rpath = (
         os.path.join(d, f) for f in ("cases.ndjson", "states.ndjson", "excs.ndjson", "matrix.ndjson", "rows.ndjson")
     )
@@ -420,3 +423,42 @@ def replay(ctx, rep):
     for v in ctx.violations:
         print("REPLAY %s: %s" % (v.sig, v.what))
     return 1 if any(v.sig == rep["signature"] for v in ctx.violations) else 0
+
+
+def selftest(ctx):
+    """Vacuity check of the judge: four recorded fields are falsified (one per case, on cases without
+    any finding); the judge must reject exactly those, with the expected clauses."""
+    U = UNIVERSES["U0"]
+    only = [(1, 5, 0), (5, 1, 0), (5, 5, 0), (1, 1, 0)]  # kinds (None, {}) and (None, {DISCRETE_TIME})
+    check_universe(ctx, "selftest-clean", U, False, False, True, only=only)
+    if ctx.violations:
+        print("selftest: unexpected findings on the clean cases: %s" % sorted({v.sig for v in ctx.violations}))
+        return 1
+    expect = {}
+
+    def corrupt(cases, rec):
+        by = {(c["a"], c["b"]): c for c in cases}
+        n = len(rec.states)
+
+        def step(pair, op):
+            return next(s for s in by[pair]["st"] if s[0] == op)
+
+        step((1, 5), 2)[7] ^= 1  # result of <=
+        expect[(1, 5)] = "le|"
+        s = step((5, 1), 3)  # result of union: some other recorded state
+        s[7] = s[7] % n + 1
+        expect[(5, 1)] = "union"
+        s = step((5, 5), 1)  # state of the right operand after ==
+        s[5] = s[5] % n + 1
+        expect[(5, 5)] = "operand-"
+        step((1, 1), 1)[7] ^= 1  # result of ==
+        expect[(1, 1)] = "eq|"
+
+    check_universe(ctx, "selftest-corrupt", U, False, False, True, only=only, corrupt=corrupt)
+    rc = 0
+    for pair, prefix in sorted(expect.items()):
+        sigs = sorted({v.sig for v in ctx.violations if tuple(v.data["pair"][:2]) == pair})
+        ok = any(x.startswith(prefix) for x in sigs)
+        print("selftest: falsified case %s -> judge reports %s : %s" % (pair, sigs, "ok" if ok else "NOT DETECTED"))
+        rc |= 0 if ok else 1
+    return rc
